@@ -41,7 +41,9 @@ EXTENDS Naturals, Integers, Sequences, FiniteSets, TLC
 
 CONSTANTS EA, EB,     \* the two endpoints
           Cap,        \* capacity of one direction (512 in the code; small in the bounded model, see MemConnMC)
-          Nil
+          Nil,
+          ClipToLen   \* FALSE: ReadFrom copies into b[:cap(b)] as the code does today (known finding X01:ReadBeyondLen);
+                      \* TRUE: into b[:len(b)] (the code with findings/X01-readfrom-len.fix.patch applied)
 
 VARIABLES q, closed, rd, dl, nid, out,     \* mechanism
           acc, dlv                          \* property level (ghost): accepted / delivered identities per direction
@@ -64,7 +66,7 @@ Outcome(res, n, id, over, wake, loop) == [res |-> res, n |-> n, id |-> id, over 
 Plain(res, n) == Outcome(res, n, NoId, FALSE, <<>>, <<>>)
 
 \* what ReadFrom stores and returns for datagram d and buffer b: code (cap) and contract (len)
-RdN(d, b)  == Min(d.n, b.cap)
+RdN(d, b)  == Min(d.n, IF ClipToLen THEN b.len ELSE b.cap)
 RdNC(d, b) == Min(d.n, b.len)
 RdOut(d, b) == [n |-> RdN(d, b), id |-> IF RdN(d, b) = 0 THEN NoId ELSE d.id, over |-> RdN(d, b) > b.len]
 
